@@ -152,6 +152,25 @@ func c11Run(p c11Plan) *common.Fail {
 							return common.Failf("layout-decode-shared", "the L_Data value decoded from %x (copied by value) changed when %x was decoded into the same structure:\n now      %+v\n expected %+v", fresh, next, *got, want)
 						}
 					}
+					// what is decoded into a structure that has been used before is what the bytes say - every field, also
+					// the ones the new frame leaves empty (additional info present before and absent now, and the reverse)
+					for _, info := range [][]byte{nil, {0x03, 0x01, 0x7f}, c.LData.Info} {
+						ld3 := ld2
+						ld3.Info = info
+						c3 := *c
+						c3.LData = &ld3
+						again, _ := common.RefEncodeCemi(&c3)
+						used := ldataOf(m4)
+						if _, err := used.Unpack(again[1:]); err != nil {
+							return common.Failf("layout-decode-used-destination", "decoding the layout %x into an L_Data structure that held the frame decoded before fails: %v", again, err)
+						}
+						if !ld3.TPDU.Numbered {
+							ld3.TPDU.Seq = 0
+						}
+						if got := fromLibLData(used); !sameRLData(got, &ld3) {
+							return common.Failf("layout-decode-used-destination", "layout %x decoded into an L_Data structure that had been used for another frame before:\n decoded  %+v\n expected %+v", again, *got, ld3)
+						}
+					}
 				}
 			}
 		}
